@@ -189,6 +189,17 @@ func (rb *ResponseBuffer) Write(buf []byte) (int, error) {
 	return rb.Buffer.Write(buf)
 }
 
+// Flush implements http.Flusher. While the response is being buffered
+// there is nothing to send yet: flushing the underlying ResponseWriter
+// would commit its header - status 200 and whatever fields it has at
+// that moment - in place of the status and header of the buffered response.
+func (rb *ResponseBuffer) Flush() {
+	if rb.wroteHeader && !rb.stream {
+		return
+	}
+	rb.ResponseWriterWrapper.Flush()
+}
+
 // Buffered returns whether rb has decided to buffer the response.
 func (rb *ResponseBuffer) Buffered() bool {
 	return !rb.stream
